@@ -1033,9 +1033,14 @@ func (r *runner) doInterest(op *Op) {
 		rec.tokens = [][]byte{tok}
 		e.in[op.Face] = rec
 	} else {
-		// an existing record keeps the first token in this implementation; the
-		// statement allows any token that face supplied for this pending Interest
-		rec.tokens = append(rec.tokens, tok)
+		// the face's pending Interest is now this one, and the token it supplied is the one to come back with
+		// the Data (the downstream may have forgotten the entry it had issued the earlier token for); if the
+		// model cannot be sure that this Interest was accepted, either token is
+		if accepted {
+			rec.tokens = [][]byte{tok}
+		} else {
+			rec.tokens = append(rec.tokens, tok)
+		}
 		if accepted {
 			if rec.clean && !rec.nonceUnsure && rec.nonce != nonce {
 				if rec.superseded == nil {
